@@ -224,7 +224,7 @@ func (d *Driver) claimObserved(o *elObj, val, isL bool, tok, stack string, polle
 				ev.AfterStopRet = o.in.stopRetStep > 0 && o.in.inStopCall == 0
 			}
 		}
-		d.logf("claim i%d.%d %v by=%s leaders=%v", o.in.idx, o.gen, val, stack, ev.Leaders)
+		d.logf("claim i%d.%d %v by=%s leaders=%v at=%d", o.in.idx, o.gen, val, stack, ev.Leaders, int64(now))
 		d.onClaimEdge(o, ev)
 	}
 	d.h.Claims = append(d.h.Claims, ev)
@@ -341,7 +341,7 @@ func (s *scriptHealth) Check(ctx context.Context) bool {
 		dl = t.Sub(d.start) - now
 	}
 	d.h.Health = append(d.h.Health, &HealthEvt{Ord: d.h.nextOrd(), Inst: in.idx, Gen: o.gen, T: now, Step: d.step, Result: r, Deadline: dl, Tick: o.healthTick})
-	d.logf("health i%d.%d %c dl=%d", in.idx, o.gen, r, int64(dl))
+	d.logf("health i%d.%d %c dl=%d g%d at=%d", in.idx, o.gen, r, int64(dl), d.gidOrd(goid()), int64(now))
 	d.mu.Unlock()
 	switch r {
 	case 'u':
@@ -352,6 +352,12 @@ func (s *scriptHealth) Check(ctx context.Context) bool {
 	case 'S': // slow: blocks until its context expires, then reports healthy all the same
 		<-ctx.Done()
 		return true
+	case 'b', 'B': // ignores its context: blocks for HealthBlock, then reports unhealthy / healthy
+		time.Sleep(in.cfg.HealthBlock)
+		d.mu.Lock()
+		d.logf("health i%d.%d %c answered", in.idx, o.gen, r)
+		d.mu.Unlock()
+		return r == 'B'
 	}
 	return true
 }
